@@ -283,6 +283,10 @@ let cmd_mon () =
           let vs = monitor_trace h.sp h.pull nsk evs in
           List.iter (fun v ->
             out := (if h.subs > 1 then Printf.sprintf "%d:%s" k (str_viol v) else str_viol v) :: !out) vs;
+          List.iter (fun (SV (pr, code)) ->
+            let t = Printf.sprintf "C%02d:S%d" (int_of_nat pr) (int_of_nat code) in
+            let t = if h.subs > 1 then Printf.sprintf "%d:%s" k t else t in
+            if not (List.mem t !out) then out := t :: !out) (smonitor_trace h.sp h.pull nsk evs);
           List.iter (fun c ->
             let n = str_class c in
             if not (List.mem n !cls) then cls := n :: !cls) (classes_trace evs)
@@ -389,9 +393,14 @@ let gen_script (h : header) (maxlen : int) : string =
   String.concat " " (List.rev !out)
 
 (* random header for an operator family *)
+let forced : (string * string) list ref = ref []
+
 let gen_header (opname : string) : string =
   let env = if rand 4 = 0 then "pull" else "std" in
+  let env = try List.assoc "env" !forced with Not_found -> env in
   let subs = if rand 6 = 0 && opname <> "share" then 2 else 1 in
+  let subs = try int_of_string (List.assoc "subs" !forced) with Not_found -> subs in
+  let subs = if opname = "share" then 1 else subs in
   let base =
     match opname with
     | "map" -> Printf.sprintf "op=map a=%d b=%d" (1 + rand 3) (rand 3)
@@ -417,6 +426,12 @@ let gen_header (opname : string) : string =
 
 let cmd_gen seed count ops =
   rng_state := Int64.of_int seed;
+  (* tokens of the form key=value force that header field (env=pull, subs=2) *)
+  forced := List.filter_map (fun t ->
+    match String.index_opt t '=' with
+    | Some i -> Some (String.sub t 0 i, String.sub t (i + 1) (String.length t - i - 1))
+    | None -> None) ops;
+  let ops = List.filter (fun t -> not (String.contains t '=')) ops in
   let ops = Array.of_list ops in
   for _ = 1 to count do
     let opname = ops.(rand (Array.length ops)) in
@@ -447,8 +462,233 @@ let cmd_enum depth hs =
     end in
   go (cfg0_spec h.sp) [] depth
 
+(* ---------- pipelines (C06) ---------- *)
+
+let parse_stage (t : string) : stage =
+  let parts = Array.of_list (String.split_on_char ':' t) in
+  let num i = if i < Array.length parts then nat_of_int (int_of_string parts.(i)) else O in
+  let lst i = if i < Array.length parts then List.map nat_of_int (parse_list parts.(i)) else [] in
+  match parts.(0) with
+  | "map" -> StMap (num 1, num 2)
+  | "filter" -> StFilter (num 1, num 2)
+  | "scan" -> StScan (num 1, num 2)
+  | "take" -> StTake (num 1)
+  | "skip" -> StSkip (num 1)
+  | "append" -> StAppend (lst 1)
+  | "prepend" -> StPrepend (lst 1)
+  | "flatmap" -> StFlatMap (num 1)
+  | s -> failwith ("unknown stage " ^ s)
+
+let cmd_pipe () =
+  try
+    while true do
+      let line = input_line stdin in
+      if String.trim line <> "" then begin
+        let h = List.map (fun t ->
+          match String.index_opt t '=' with
+          | Some i -> (String.sub t 0 i, String.sub t (i + 1) (String.length t - i - 1))
+          | None -> (t, "")) (tokens line) in
+        let xs = List.map nat_of_int (parse_list (get h "xs" "-")) in
+        let inf = match get h "inf" "-" with "-" -> None | b -> Some (nat_of_int (int_of_string b)) in
+        let st = get h "stages" "-" in
+        let stages = if st = "-" || st = "" then []
+          else List.map parse_stage (List.filter (fun s -> s <> "") (String.split_on_char ';' st)) in
+        let ((outs, pos), fin) = run_pipe_spec stages xs inf (nat_of_int 400) (nat_of_int 3000) in
+        let u = String.concat " " (List.map (fun v -> Printf.sprintf "user:%d" (int_of_nat v)) outs) in
+        let u = if u = "" then "" else u ^ " " in
+        Printf.printf "F: %snexts=%d | P: %snexts=%d done=%d\n" u (int_of_nat pos) u (int_of_nat pos)
+          (if fin then 1 else 0)
+      end
+    done
+  with End_of_file -> ()
+
+let gen_stage () : string =
+  match rand 10 with
+  | 0 | 1 -> Printf.sprintf "map:%d:%d" (1 + rand 3) (rand 3)
+  | 2 | 3 -> let m = 1 + rand 3 in Printf.sprintf "filter:%d:%d" m (rand m)
+  | 4 -> Printf.sprintf "scan:%d:%d" (rand 3) (rand 4)
+  | 5 | 6 -> Printf.sprintf "take:%d" (1 + rand 4)
+  | 7 -> Printf.sprintf "skip:%d" (rand 4)
+  | 8 -> let l = rand 3 in
+         if rand 2 = 0 then Printf.sprintf "append:%s" (if l = 0 then "-" else String.concat "," (List.init l (fun _ -> string_of_int (rand 10))))
+         else Printf.sprintf "prepend:%s" (if l = 0 then "-" else String.concat "," (List.init l (fun _ -> string_of_int (rand 10))))
+  | _ -> Printf.sprintf "flatmap:%d" (rand 4)
+
+let cmd_genpipe seed count =
+  rng_state := Int64.of_int seed;
+  for _ = 1 to count do
+    let n = rand 6 in
+    let stages = List.init n (fun _ -> gen_stage ()) in
+    let has_take = List.exists (fun s -> String.length s > 4 && String.sub s 0 4 = "take") stages in
+    let l = rand 9 in
+    let xs = List.init l (fun _ -> string_of_int (rand 10)) in
+    let inf = if has_take && rand 3 = 0 then string_of_int (rand 10) else "-" in
+    (* an unbounded input is only used when a take makes the program finite; upstream of the
+       first take nothing may starve it (no filter, no flat-map with empty inners) *)
+    let starts p s = String.length s >= String.length p && String.sub s 0 (String.length p) = p in
+    let stages =
+      if inf <> "-" then begin
+        let seen_take = ref false in
+        List.filter (fun s ->
+          if starts "take" s then (seen_take := true; true)
+          else !seen_take || not (starts "filter" s || starts "flatmap" s || starts "scan:2" s)) stages
+      end else stages in
+    Printf.printf "xs=%s inf=%s stages=%s\n"
+      (if l = 0 then "-" else String.concat "," xs) inf
+      (if stages = [] then "-" else String.concat ";" stages)
+  done
+
+(* ---------- thread experiments (C18, C19) ---------- *)
+
+type theader = {
+  tkv : (string * string) list;
+  sys : tsys;
+  nth : int;
+  qs : nat -> val0 list;
+  fins : nat -> final;
+  sched : int list;
+}
+
+let parse_theader (line : string) : theader =
+  let kv = List.map (fun t ->
+    match String.index_opt t '=' with
+    | Some i -> (String.sub t 0 i, String.sub t (i + 1) (String.length t - i - 1))
+    | None -> (t, "")) (tokens line) in
+  let fixed = get kv "fixed" "1" = "1" in
+  let n = nat_of_int (geti kv "n" 1) in
+  let sys = match get kv "sys" "take" with
+    | "take" -> TsTake (fixed, n)
+    | "merge" -> TsMerge n
+    | "combine" -> TsCombine (fixed, n)
+    | "takemerge" -> TsTakeMerge n
+    | s -> failwith ("unknown sys " ^ s) in
+  let nth = geti kv "th" 2 in
+  let qs t = List.map (fun x -> VN (nat_of_int x)) (parse_list (get kv (Printf.sprintf "q%d" (int_of_nat t)) "-")) in
+  let fins t = match get kv (Printf.sprintf "f%d" (int_of_nat t)) "N" with
+    | "T" -> FinTerm
+    | "N" -> FinNone
+    | e -> FinErr (nat_of_int (int_of_string (String.sub e 1 (String.length e - 1)))) in
+  { tkv = kv; sys; nth; qs; fins; sched = parse_list (get kv "sched" "-") }
+
+let str_tev ((t, e) : nat * tev) : string =
+  let t = int_of_nat t in
+  match e with
+  | TBegin m -> Printf.sprintf "t%d:<dn0:%s" t (str_dmsg m)
+  | TEnd -> Printf.sprintf "t%d:ret" t
+  | TUp (i, m) -> Printf.sprintf "t%d:<up%d:%s" t (int_of_nat i) (str_umsg m)
+  | TPanic -> Printf.sprintf "t%d:PANIC" t
+
+let parse_tev (tok : string) : (nat * tev) option =
+  (* "t<k>:..." *)
+  match String.index_opt tok ':' with
+  | Some i when tok.[0] = 't' ->
+      let t = nat_of_int (int_of_string (String.sub tok 1 (i - 1))) in
+      let rest = String.sub tok (i + 1) (String.length tok - i - 1) in
+      if rest = "ret" then Some (t, TEnd)
+      else if rest = "PANIC" then Some (t, TPanic)
+      else if starts_with "<dn0:" rest then Some (t, TBegin (parse_dmsg (after "<dn0:" rest)))
+      else if starts_with "<up" rest then
+        let (a, b) = split2 (after "<up" rest) ':' in
+        Some (t, TUp (nat_of_int (int_of_string a), parse_umsg (Option.get b)))
+      else None
+  | _ -> None
+
+let str_tviol = function
+  | TvOverDeliver -> "C19:OverDeliver" | TvUpTwice -> "C19:UpTwice"
+  | TvSinkTermTwice -> "C18:SinkTermTwice" | TvNotCompleted -> "C19:NotCompleted"
+  | TvGreetCount -> "C18:GreetCount" | TvBeforeGreet -> "C18:BeforeGreet"
+  | TvDataLost -> "C18:DataLost" | TvDataForged -> "C18:DataForged" | TvOrder -> "C18:Order"
+  | TvIncompleteTuple -> "C18:IncompleteTuple" | TvTermDuringData -> "C18:TermDuringData"
+  | TvNoTerminal -> "C18:NoTerminal" | TvAfterTerminal -> "C18:AfterTerminal"
+  | TvPanic -> "C18:Panic"
+
+let tfuel = nat_of_int 400
+
+let cmd_threads () =
+  try
+    while true do
+      let line = input_line stdin in
+      if String.trim line <> "" then begin
+        let h = parse_theader line in
+        let (tr, vs) = trun h.sys (nat_of_int h.nth) h.qs h.fins (List.map nat_of_int h.sched) tfuel in
+        Printf.printf "%s || %s\n" (String.concat " " (List.map str_tev tr))
+          (String.concat " " (List.map str_tviol vs))
+      end
+    done
+  with End_of_file -> ()
+
+let cmd_tmon () =
+  try
+    while true do
+      let line = input_line stdin in
+      if String.trim line <> "" then begin
+        let (hs, ts) = split_bar line in
+        let h = parse_theader hs in
+        let tr = List.filter_map parse_tev (tokens ts) in
+        print_endline (String.concat " " (List.map str_tviol (tcheck h.sys h.qs h.fins tr)))
+      end
+    done
+  with End_of_file -> ()
+
+(* every schedule, depth first; prints the violating complete schedules (up to a limit) *)
+let cmd_texplore limit line =
+  let h = parse_theader line in
+  let total = ref 0 and bad = ref 0 in
+  let rec go st (pref : int list) =
+    let movable = List.filter (fun t -> not (tfinished st (nat_of_int t))) (List.init h.nth (fun t -> t)) in
+    if movable = [] then begin
+      incr total;
+      let tr = ttrace st in
+      let vs = tcheck h.sys h.qs h.fins tr in
+      if vs <> [] then begin
+        incr bad;
+        if !bad <= limit then
+          Printf.printf "BAD sched=%s || %s || %s\n"
+            (String.concat "," (List.map string_of_int (List.rev pref)))
+            (String.concat " " (List.map str_tev tr))
+            (String.concat " " (List.map str_tviol vs))
+      end
+    end else
+      List.iter (fun t -> go (tstep1 h.sys st (nat_of_int t)) (t :: pref)) movable in
+  go (tinit h.sys h.qs h.fins) [];
+  Printf.printf "schedules=%d violating=%d\n" !total !bad
+
+let cmd_tgen seed count syss =
+  rng_state := Int64.of_int seed;
+  let syss = Array.of_list syss in
+  for _ = 1 to count do
+    let sys = syss.(rand (Array.length syss)) in
+    let th = 2 + rand 2 in
+    let n = match sys with "take" -> 1 + rand 3 | _ -> th in
+    let buf = Buffer.create 80 in
+    Buffer.add_string buf (Printf.sprintf "sys=%s fixed=1 n=%d th=%d" sys n th);
+    let vc = ref 0 in
+    let err_used = ref false in
+    for t = 0 to th - 1 do
+      let l = rand 4 in
+      let q = List.init l (fun _ -> incr vc; string_of_int (10 * t + !vc mod 10)) in
+      Buffer.add_string buf (Printf.sprintf " q%d=%s" t (if l = 0 then "-" else String.concat "," q));
+      let f = if sys = "take" then "N"
+        else match rand 8 with
+          | 0 when not !err_used -> err_used := true; Printf.sprintf "E%d" (100 + t)
+          | 1 -> "N"
+          | _ -> "T" in
+      Buffer.add_string buf (Printf.sprintf " f%d=%s" t f)
+    done;
+    let sl = rand 60 in
+    Buffer.add_string buf (Printf.sprintf " sched=%s"
+      (if sl = 0 then "-" else String.concat "," (List.init sl (fun _ -> string_of_int (rand th)))));
+    print_endline (Buffer.contents buf)
+  done
+
 let () =
   match Array.to_list Sys.argv with
+  | _ :: "threads" :: _ -> cmd_threads ()
+  | _ :: "tmon" :: _ -> cmd_tmon ()
+  | _ :: "texplore" :: limit :: rest -> cmd_texplore (int_of_string limit) (String.concat " " rest)
+  | _ :: "tgen" :: seed :: count :: syss -> cmd_tgen (int_of_string seed) (int_of_string count) syss
+  | _ :: "pipe" :: _ -> cmd_pipe ()
+  | _ :: "genpipe" :: seed :: count :: _ -> cmd_genpipe (int_of_string seed) (int_of_string count)
   | _ :: "run" :: _ -> cmd_run ()
   | _ :: "mon" :: _ -> cmd_mon ()
   | _ :: "gen" :: seed :: count :: ops -> cmd_gen (int_of_string seed) (int_of_string count) ops
